@@ -736,7 +736,7 @@ func c04Case(c *Ctx, g *gateInfo) {
 	r := c.R
 	// functions reachable from the gate that take a platform tag list or tag
 	scope := reachClosure(c, []*ssa.Function{g.fn})
-	tr := &origin.Tracer{CG: c.P.CallGraph(), Through: func(call *ssa.Call, idx int) []ssa.Value { return nil }}
+	tr := &origin.Tracer{CG: c.P.CallGraph(), Through: func(call *ssa.Call, idx int) []ssa.Value { return nil }, FieldStoresIn: shippedFuncs(c)}
 	n := 0
 	for _, fn := range scope {
 		if fn.Name() == "isCrossPlatformTool" || fn.Name() == "isPipelineCommand" {
